@@ -1672,7 +1672,9 @@ class WassersteinVectorizer(BaseEstimator, TransformerMixin):
 
                     lot_dimension = reference_size * vectors.shape[1]
                     block_size = max(1, memory_size // (lot_dimension * 8))
-                    u, s, v = scipy.sparse.linalg.svds(X, k=1)
+                    u, s, v = scipy.sparse.linalg.svds(
+                        X, k=1, v0=random_state.uniform(-1, 1, min(X.shape))
+                    )
                     reference_center = v @ vectors
                     if metric == cosine:
                         reference_center /= np.sqrt(np.sum(reference_center**2))
@@ -2372,7 +2374,9 @@ class SinkhornVectorizer(BaseEstimator, TransformerMixin):
 
                 lot_dimension = reference_size * vectors.shape[1]
                 block_size = max(1, memory_size // (lot_dimension * 8))
-                u, s, v = scipy.sparse.linalg.svds(X, k=1)
+                u, s, v = scipy.sparse.linalg.svds(
+                    X, k=1, v0=random_state.uniform(-1, 1, min(X.shape))
+                )
                 reference_center = v @ vectors
                 if metric == cosine:
                     reference_center /= np.sqrt(np.sum(reference_center**2))
